@@ -716,6 +716,83 @@ func (e *SpecEnv) call(n *ast.CallExpr) Val {
 					return Val{T: "(and " + strings.Join(parts, " ") + ")", Typ: tBool}
 				}
 				return Val{T: "(or " + strings.Join(parts, " ") + ")", Typ: tBool}
+			case "gf":
+				// gf(p, "name"): ghost integer field of the object p points to (e.g. the
+				// mathematical value of a *big.Int); lives in its own heap array
+				a := e.expr(n.Args[0])
+				lit, ok := n.Args[1].(*ast.BasicLit)
+				if !ok {
+					sfail("gf(p, \"name\")")
+				}
+				name, _ := strconv.Unquote(lit.Value)
+				arr := "GF:" + name
+				u.declArr(arr, "(Array Int Int)")
+				l := &Loc{Arr: arr, Sort: "(Array Int Int)", Key: a.T, Typ: types.Typ[types.UntypedInt]}
+				return Val{T: u.load(e.heap, l), Typ: types.Typ[types.UntypedInt], Loc: l}
+			case "tableInt":
+				// tableInt("var", j): the j-th integer of the composite-literal initialiser of a
+				// package-level variable (elements are integer literals or big.NewInt(K) calls)
+				lit, ok := n.Args[0].(*ast.BasicLit)
+				if !ok {
+					sfail("tableInt(\"var\", j)")
+				}
+				vn, _ := strconv.Unquote(lit.Value)
+				j := e.expr(n.Args[1])
+				vals, err := u.W.intTable(e.tablePkg(&vn), vn)
+				if err != nil {
+					sfail("%v", err)
+				}
+				// an uninterpreted function with one ground fact per index (matching-friendly)
+				fn := u.D.Fun("tbl:"+vn, []string{"Int"}, "Int")
+				for i, v := range vals {
+					u.D.axiom(fmt.Sprintf("(= (%s %d) %s)", fn, i, v))
+				}
+				return Val{T: app(fn, j.T), Typ: types.Typ[types.UntypedInt]}
+			case "tableLen":
+				lit, ok := n.Args[0].(*ast.BasicLit)
+				if !ok {
+					sfail("tableLen(\"var\")")
+				}
+				vn, _ := strconv.Unquote(lit.Value)
+				vals, err := u.W.intTable(e.tablePkg(&vn), vn)
+				if err != nil {
+					sfail("%v", err)
+				}
+				return Val{T: fmt.Sprint(len(vals)), Typ: types.Typ[types.UntypedInt]}
+			case "given":
+				// given(L(args...), body): body under the instance of lemma L at args. L is proved
+				// as its own obligation; here it is only instantiated.
+				lc, ok := n.Args[0].(*ast.CallExpr)
+				lid, ok2 := lc.Fun.(*ast.Ident)
+				if !ok || !ok2 {
+					sfail("given(lemma(args...), body)")
+				}
+				var lm *Lemma
+				for _, l := range u.W.CS.Lemmas {
+					if l.Name == lid.Name && !l.Axiom {
+						lm = l
+					}
+				}
+				if lm == nil || len(lm.Params) != len(lc.Args) {
+					sfail("given: no lemma %s with %d parameters", lid.Name, len(lc.Args))
+				}
+				c := &SpecEnv{u: u, pkg: u.W.pkgByPath(lm.Pkg), vars: map[string]Val{}, heap: e.heap, oldHeap: e.oldHeap, depth: e.depth + 1}
+				if c.pkg == nil {
+					c.pkg = e.pkg
+				}
+				for i, p := range lm.Params {
+					a := e.expr(lc.Args[i])
+					a.Typ = u.W.resolveTypeText(c.pkg, p.Type)
+					c.vars[p.Name] = a
+				}
+				lx, err := parser.ParseExpr(lm.Text)
+				if err != nil {
+					sfail("lemma %s: %v", lm.Name, err)
+				}
+				hyp := c.expr(lx)
+				body := e.expr(n.Args[1])
+				u.note("uses lemma " + lm.Name + " (proved as its own obligation)")
+				return Val{T: implies(hyp.T, body.T), Typ: tBool}
 			case "isConstOf":
 				// isConstOf(x, T, excluded...): x equals one of the constants of named type T
 				// declared in T's package (mechanically extracted), except the excluded ones
@@ -925,6 +1002,9 @@ func (e *SpecEnv) applySpec(sp *SpecFunc, argx []ast.Expr) Val {
 		}
 		fn := u.D.Fun("spec:"+sp.Name, sorts, u.D.SortOf(rt))
 		u.W.specAxioms(u, sp)
+		if e.depth < 6 {
+			u.W.instAxioms(e, sp, args)
+		}
 		return Val{T: app(fn, ts...), Typ: rt}
 	}
 	if e.depth > 20 {
@@ -1155,4 +1235,17 @@ func mapLitTriples(fn *ssa.Function) []litTriple {
 		}
 	}
 	return out
+}
+
+
+// tablePkg resolves "pkg.var" table names; *name is reduced to the bare variable name.
+func (e *SpecEnv) tablePkg(name *string) string {
+	if i := strings.Index(*name, "."); i >= 0 {
+		pn := (*name)[:i]
+		*name = (*name)[i+1:]
+		if p := e.u.W.findPackage(e.pkg, pn, *name); p != nil {
+			return p.Path()
+		}
+	}
+	return e.pkg.Path()
 }
